@@ -42,7 +42,17 @@ type world struct {
 	flags     []string
 }
 
+// anon is an assigner that cannot list its names (not a jrpc2.Namer).
+type anon struct{ m handler.Map }
+
+func (a anon) Assign(ctx context.Context, method string) jrpc2.Handler { return a.m.Assign(ctx, method) }
+
 func (w *world) build(n ANode, path string) jrpc2.Assigner {
+	if n.Kind == "anon" {
+		leaf := n
+		leaf.Kind = "map"
+		return anon{w.build(leaf, path).(handler.Map)}
+	}
 	if n.Kind == "map" {
 		m := handler.Map{}
 		for _, k := range n.Keys {
@@ -108,7 +118,7 @@ func (r recorder) Names() []string { return r.inner.(jrpc2.Namer).Names() }
 // ---- reference resolver, written from the documentation -----------------------
 
 func resolve(n ANode, path, name string) string {
-	if n.Kind == "map" {
+	if n.Kind == "map" || n.Kind == "anon" {
 		for _, k := range n.Keys {
 			if k == name {
 				return path + "/" + k
@@ -129,12 +139,42 @@ func resolve(n ANode, path, name string) string {
 	return ""
 }
 
+// placeholders: what Names may show for services that cannot list their
+// methods ("svc.*" at the pinned commit); removed before the comparison.
+func placeholders(n ANode, prefix string, out map[string]bool) {
+	for i, k := range n.Keys {
+		if n.Kind != "svc" {
+			return
+		}
+		if n.Subs[i].Kind == "anon" {
+			out[prefix+k+".*"] = true
+		} else {
+			placeholders(n.Subs[i], prefix+k+".", out)
+		}
+	}
+}
+
+func withoutPlaceholders(n ANode, got []string) []string {
+	ph := map[string]bool{}
+	placeholders(n, "", ph)
+	var out []string
+	for _, g := range got {
+		if !ph[g] {
+			out = append(out, g)
+		}
+	}
+	return out
+}
+
 func names(n ANode) []string {
 	var out []string
 	if n.Kind == "map" {
 		out = append(out, n.Keys...)
 	} else {
 		for i, k := range n.Keys {
+			if n.Subs[i].Kind == "anon" {
+				continue // its methods cannot be listed; what Names shows for it is not judged
+			}
 			for _, s := range names(n.Subs[i]) {
 				out = append(out, k+"."+s)
 			}
@@ -157,7 +197,7 @@ func run(_ *testing.T, c Case) engine.Verdict {
 	if !sort.StringsAreSorted(gotNames) {
 		return engine.Failf("C17/names-unsorted", "Names() = %q is not sorted", gotNames)
 	}
-	if strings.Join(dedup(gotNames), "\x00") != strings.Join(dedup(wantNames), "\x00") {
+	if strings.Join(dedup(withoutPlaceholders(c.Tree, gotNames)), "\x00") != strings.Join(dedup(wantNames), "\x00") {
 		return engine.Failf("C17/names-set", "Names() = %q, the resolvable names are %q", gotNames, wantNames)
 	}
 	nt := false
@@ -199,7 +239,7 @@ func run(_ *testing.T, c Case) engine.Verdict {
 				if err != nil {
 					return engine.Failf("C17/serverinfo", "rpc.serverInfo failed: %v", err)
 				}
-				if strings.Join(got.Methods, "\x00") != strings.Join(wantNames, "\x00") && !(len(wantNames) == 0 && len(got.Methods) == 0) {
+				if gm := withoutPlaceholders(c.Tree, got.Methods); strings.Join(gm, "\x00") != strings.Join(wantNames, "\x00") && !(len(wantNames) == 0 && len(gm) == 0) {
 					return engine.Failf("C17/serverinfo-methods", "rpc.serverInfo methods %q, want the sorted names %q", got.Methods, wantNames)
 				}
 				if len(got.Metrics) == 0 || got.Metrics[0] != '{' || got.StartTime == nil || !got.StartTime.Equal(start) {
@@ -387,6 +427,9 @@ func genKey(t *rapid.T) string {
 func genTree(t *rapid.T, depth int) ANode {
 	if depth >= 3 || rapid.IntRange(0, 2).Draw(t, "leaf") == 0 {
 		n := ANode{Kind: "map"}
+		if depth > 0 && rapid.IntRange(0, 4).Draw(t, "anon") == 0 {
+			n.Kind = "anon"
+		}
 		used := map[string]bool{}
 		for i, k := 0, rapid.IntRange(0, 5).Draw(t, "nkeys"); i < k; i++ {
 			key := genKey(t)
